@@ -23,6 +23,9 @@ ASSUMPTIONS = ["E2: AEON BDD operations (restriction, support) used by the DNF g
 CASE_TIMEOUT = {"quick": 40, "thorough": 120}
 
 
+FREE_INPUTS = 0.2    # inputs without an update function (aeon / sbml style) in a fifth of the cases
+
+
 def budget(tier):
     return 700 if tier == "quick" else 7000
 
